@@ -8,6 +8,10 @@ type Filter []syscall.SockFilter
 
 // SockFprog converts Filter to SockFprog for seccomp syscall
 func (f Filter) SockFprog() *syscall.SockFprog {
+	// no filter: nothing to install (forkexec treats a nil program as "no seccomp")
+	if len(f) == 0 {
+		return nil
+	}
 	b := []syscall.SockFilter(f)
 	return &syscall.SockFprog{
 		Len:    uint16(len(b)),
